@@ -6,6 +6,7 @@
 mod alloc;
 mod c05;
 mod c05_faults;
+mod c05_scale;
 mod c05_work;
 mod c12;
 mod c15;
